@@ -7,7 +7,7 @@ ID = "C10"
 PROPS = "C10"
 RULE = ("pipelines of 1..4 requests whose k-th element is malformed/unsupported, every class (request line with <3 fields, "
         "unrecognised version token, header line without colon, non-ASCII byte in the request line or a header, unsupported "
-        "Expect value, HTTP/2.0 and HTTP/3.0 without and with a body: Content-Length 5..3000 or chunked) x every position k, others well-formed with tagged answers; plus followers after the "
+        "Expect value (also on an upgrade request), HTTP/2.0 and HTTP/3.0 without and with a body: Content-Length 5..3000 or chunked) x every position k, others well-formed with tagged answers; plus followers after the "
         "offending request; non-trivial = all of them; distinct = distinct case lines")
 ASSUMPTIONS = ["the client half-closes after sending, so 'never hang' is observable as end-of-stream within the time limit",
                "bulk runs use Unix sockets (no RST-after-unread-data effects); a TCP sample runs too"]
@@ -33,6 +33,11 @@ def offending(cls, v, tag):
         return b"GET " + t + b" HTTP/1.1\r\n" + v + b"\r\n\r\n"
     if cls == "expect":
         return b"POST " + t + b" HTTP/1.1\r\nExpect: " + v + b"\r\nContent-Length: 3\r\n\r\nabc"
+    if cls == "expect-upgrade":
+        # an unsupported expectation is refused on an upgrade request too
+        conn = [b"Upgrade", b"keep-alive, Upgrade", b"upgrade"][len(v) % 3]
+        return (b"GET " + t + b" HTTP/1.1\r\nHost: h\r\nConnection: " + conn + b"\r\nUpgrade: websocket\r\nExpect: " + v +
+                b"\r\n\r\nRAWBYTES")
     if cls == "version":
         return b"GET " + t + b" " + v + b"\r\nHost: h\r\n\r\n"
     if cls == "version-body":
@@ -47,7 +52,7 @@ def offending(cls, v, tag):
 
 
 CLASSES = [("line", BAD_LINE, 400), ("nocolon", NO_COLON, 400), ("nonascii-line", NON_ASCII_LINE, None),
-           ("nonascii-hdr", NON_ASCII_HDR, None), ("expect", BAD_EXPECT, 417), ("version", HIGH_VER, 505),
+           ("nonascii-hdr", NON_ASCII_HDR, None), ("expect", BAD_EXPECT, 417), ("expect-upgrade", BAD_EXPECT[:4], 417), ("version", HIGH_VER, 505),
            ("version-body", [b"HTTP/2.0|cl5", b"HTTP/2.0|cl37", b"HTTP/3.0|cl1024", b"HTTP/2.0|cl1025", b"HTTP/3.0|cl3000", b"HTTP/2.0|chunked"], 505)]
 
 
